@@ -5,8 +5,37 @@ import os, sys, re, json, time, hashlib, subprocess, fcntl, glob, random
 VERIF = os.path.dirname(os.path.dirname(os.path.abspath(__file__)))
 sys.path.insert(0, os.path.join(VERIF, 'engine'))
 REPO = os.environ.get('VERIF_REPO', '/repo')
-BUILD = os.path.join(VERIF, '.build')
+# VERIF_REPO (default /repo) lets a background run work on a snapshot of the repository (vp run --with-repo) or on a scratch worktree
+# with a seeded change; such runs use their own build directory and never write to /verif/evidence (evidence is only ever written by
+# a run against /repo itself).
+ALT_REPO = os.path.realpath(REPO) != '/repo'
+BUILD = os.environ.get('VERIF_BUILD') or os.path.join(VERIF, '.build' if not ALT_REPO else '.build-alt-' + hashlib.sha1(os.path.realpath(REPO).encode()).hexdigest()[:8])
 os.makedirs(BUILD, exist_ok=True)
+EVIDENCE_DIR = os.path.join(VERIF, 'evidence') if not ALT_REPO else os.path.join(BUILD, 'evidence')
+VIOLATIONS_DIR = os.path.join(VERIF, 'violations') if not ALT_REPO else os.path.join(BUILD, 'violations')
+
+
+def crate_dir(path):
+    """a crate of /verif with path dependencies on /repo; for an alternative repository root a copy with the paths rewritten"""
+    if not ALT_REPO:
+        return path
+    dst = os.path.join(BUILD, 'crates', os.path.basename(path.rstrip('/')))
+    os.makedirs(dst, exist_ok=True)
+    lock = open(os.path.join(BUILD, 'crates.lock'), 'w'); fcntl.flock(lock, fcntl.LOCK_EX)
+    try:
+        subprocess.run(['rsync', '-a', '--delete', '--exclude', 'target', '--exclude', 'Cargo.toml', path.rstrip('/') + '/', dst + '/'], check=True)
+        for root, _, fs in os.walk(path):
+            if '/target' in root: continue
+            for f in fs:
+                if f == 'Cargo.toml':
+                    t = open(os.path.join(root, f)).read()
+                    t = t.replace('"/repo/', '"' + REPO.rstrip('/') + '/').replace('"/repo"', '"' + REPO.rstrip('/') + '"')
+                    fp = os.path.join(dst, os.path.relpath(os.path.join(root, f), path))
+                    if not os.path.exists(fp) or open(fp).read() != t:
+                        open(fp, 'w').write(t)
+    finally:
+        fcntl.flock(lock, fcntl.LOCK_UN)
+    return dst
 
 import z3
 from mirsym.parser import Program
@@ -136,6 +165,7 @@ _PROG_CACHE = {}
 
 def load_program(crates, subjects_dir=None):
     prog = Program(); keys = {}
+    if subjects_dir: subjects_dir = crate_dir(subjects_dir)
     roots = [REPO]
     for c in crates:
         path, key = dump_mir(c)
@@ -175,6 +205,7 @@ def low_mantissa_zero(x, nbits, name):
 
 # ------------------------------------------------------------------------------------------- replay
 REPLAY_DIR = os.path.join(VERIF, 'replay')
+_REPLAY_DIR_EFF = None
 
 
 def build_replay(profile='dev', bin_name='replay_core'):
@@ -185,7 +216,10 @@ def build_replay(profile='dev', bin_name='replay_core'):
         cmd = ['cargo', 'build', '--offline', '--target-dir', tdir, '--bin', bin_name]
         if profile == 'release': cmd.append('--release')
         env = dict(ENV, RUSTFLAGS='-A warnings')
-        r = subprocess.run(cmd, cwd=REPLAY_DIR, env=env, capture_output=True, text=True)
+        global _REPLAY_DIR_EFF
+        if _REPLAY_DIR_EFF is None:
+            _REPLAY_DIR_EFF = crate_dir(REPLAY_DIR)
+        r = subprocess.run(cmd, cwd=_REPLAY_DIR_EFF, env=env, capture_output=True, text=True)
         if r.returncode != 0:
             log(r.stderr[-4000:])
             raise RuntimeError('replay build failed')
@@ -287,8 +321,8 @@ class Check:
             self.known_hits.append((key, desc))
             print(f'KNOWN-FINDING: property={self.pid} {key}: {desc}', flush=True)
             return
-        os.makedirs(os.path.join(VERIF, 'violations'), exist_ok=True)
-        path = os.path.join(VERIF, 'violations', f'{self.pid}_{re.sub(r"[^A-Za-z0-9_.-]", "_", ob_name)}.json')
+        os.makedirs(VIOLATIONS_DIR, exist_ok=True)
+        path = os.path.join(VIOLATIONS_DIR, f'{self.pid}_{re.sub(r"[^A-Za-z0-9_.-]", "_", ob_name)}.json')
         json.dump({'property': self.pid, 'obligation': ob_name, 'key': key, 'description': desc, 'case': replay_case},
                   open(path, 'w'), indent=1)
         self.violations.append((ob_name, path))
@@ -341,8 +375,8 @@ class Check:
             'coverage': cov, 'assumptions': self.assumptions, 'wall_s': round(time.time() - self.t0, 2),
             'violations': len(self.violations),
         }
-        os.makedirs(os.path.join(VERIF, 'evidence'), exist_ok=True)
-        json.dump(ev, open(os.path.join(VERIF, 'evidence', f'{self.pid}.json'), 'w'), indent=1, default=str)
+        os.makedirs(EVIDENCE_DIR, exist_ok=True)
+        json.dump(ev, open(os.path.join(EVIDENCE_DIR, f'{self.pid}.json'), 'w'), indent=1, default=str)
         print(f'[{self.pid}/{self.tier}] obligations={n} discharged={unsat} sat={nsat} undischarged={len(cov["undischarged"])} '
               f'violations={len(self.violations)} known={len(self.known_hits)} paths={self.paths} wall={time.time() - self.t0:.1f}s', flush=True)
         for o in und:
